@@ -33,6 +33,12 @@ func ruleOneSchemaFunction(c *core.Ctx) {
 		}
 		x := &gee.Extractor{Info: p.TypesInfo, Fset: c.Fset}
 		rows := x.Extract(s.fn, d)
+		// and the helpers of the same package the function hands the work to
+		for _, hd := range declsCalledInPkg(c, d, 2) {
+			if hd != d {
+				rows = append(rows, x.Extract(hd.Name.Name, hd)...)
+			}
+		}
 		nSchema := 0
 		for _, r := range rows {
 			if r.Kind != "emit" && !strings.HasPrefix(r.Kind, "assign") {
@@ -366,27 +372,9 @@ func ruleSchemaCanonical(c *core.Ctx) {
 		return
 	}
 	handled := map[string]bool{}
-	ast.Inspect(rd.Body, func(n ast.Node) bool {
-		if cc, ok := n.(*ast.CaseClause); ok {
-			clears := false
-			for _, s := range cc.Body {
-				ast.Inspect(s, func(m ast.Node) bool {
-					if as, ok := m.(*ast.AssignStmt); ok && len(as.Lhs) == 1 {
-						if se, ok := as.Lhs[0].(*ast.SelectorExpr); ok && se.Sel.Name == "Comment" {
-							clears = true
-						}
-					}
-					return true
-				})
-			}
-			if clears {
-				for _, e := range cc.List {
-					handled[strings.TrimPrefix(types.ExprString(e), "*")] = true
-				}
-			}
-		}
-		return true
-	})
+	for _, hd := range declsCalledInPkg(c, rd, 2) { // removeComments itself or a helper its callback calls
+		handledIn(hd, handled)
+	}
 	sc := p.Types.Scope()
 	for _, n := range sc.Names() {
 		tn, ok := sc.Lookup(n).(*types.TypeName)
@@ -568,4 +556,29 @@ func condFieldDeps(c *core.Ctx, info *types.Info, d *ast.FuncDecl, at ast.Node) 
 		})
 	}
 	return fields
+}
+
+// handledIn: the struct kinds whose `case` clause in d assigns the Comment field.
+func handledIn(d *ast.FuncDecl, handled map[string]bool) {
+	ast.Inspect(d.Body, func(n ast.Node) bool {
+		if cc, ok := n.(*ast.CaseClause); ok {
+			clears := false
+			for _, s := range cc.Body {
+				ast.Inspect(s, func(m ast.Node) bool {
+					if as, ok := m.(*ast.AssignStmt); ok && len(as.Lhs) == 1 {
+						if se, ok := as.Lhs[0].(*ast.SelectorExpr); ok && se.Sel.Name == "Comment" {
+							clears = true
+						}
+					}
+					return true
+				})
+			}
+			if clears {
+				for _, e := range cc.List {
+					handled[strings.TrimPrefix(types.ExprString(e), "*")] = true
+				}
+			}
+		}
+		return true
+	})
 }
